@@ -57,7 +57,7 @@ def build(tier, seed):
 
     return dict(cases=cases, evalfn=evalfn, level="fault_enumeration", min_nontrivial=20, extra=extra,
                 rule="every cut position 0..N of each capture: generated scenes of 1-3 connections (every TLS version, CBC/RC4/AEAD, records spanning packets, coalesced "
-                     "flights, QUIC with coalescing, 0-RTT and key updates, mixed and interleaved, 20% with duplicated/reordered segments) and the real OpenSSL captures of "
+                     "flights, QUIC with coalescing, 0-RTT and key updates, mixed and interleaved, 20% with duplicated/reordered segments, 30% with repacketized retransmissions, 30% full-duplex) and the real OpenSSL captures of "
                      "/repo/test. Class = (capture kind, flows, segmentation, cut count bucket); non-trivial = the full capture exported data and every prefix run was compared",
                 assumptions=["none beyond the output oracle; ground truth is only used for the full capture of generated scenes"])
 
@@ -70,7 +70,8 @@ def eval_case(case, rng, thorough):
             if rng.random() < 0.35:
                 flows.append(gen.random_quic_flow(rng, i, napp=rng.choice([2, 5, 8])))
             else:
-                flows.append(gen.random_tls_flow(rng, i, nmax=8, segkinds=("mss", "random", "whole", "records", "byte2"), min_records=2, perturb=rng.random() < 0.2))
+                flows.append(gen.random_tls_flow(rng, i, nmax=8, segkinds=("mss", "random", "whole", "records", "byte2"), min_records=2, perturb=rng.random() < 0.2,
+                                                 duplex=rng.random() < 0.3, repack=rng.random() < 0.3))
         items = scene.merge(flows, rng, rng.choice(["random", "bursty", "concat"]))
         scene.stamp(items, rng)
         keys = scene.keylog_text(flows, rng)
@@ -99,10 +100,11 @@ def eval_case(case, rng, thorough):
     an_full = outparse.Analysis(full.out)
     ref = streams_of(an_full)
     msgs = []
+    inexact = None
     for f in flows:
         m = gen.check_flow_exact(an_full, f)
         if m:
-            return dict(out, v="inconclusive", msg="full capture is not exported exactly (C01/C02 business): " + m[0], nontrivial=False)
+            inexact = m[0]      # C01/C02 business - but the prefix relation between the cuts is still checked below
     prev = {}
     units = 0
     cuts = range(0, N) if (thorough or N <= 120) else sorted(rng.sample(range(N), 120))
@@ -135,5 +137,7 @@ def eval_case(case, rng, thorough):
             break
     out.update(units=units, mon={"prefix_runs": units}, nontrivial=any(ref.values()) and units > 0)
     if msgs:
-        return dict(out, v="violated", msg=f"{label}: " + "; ".join(msgs[:3]), files=badfiles)
+        return dict(out, v="violated", msg=f"{label}: " + "; ".join(msgs[:3]) + (f" [the full capture is also not exported exactly: {inexact[:200]}]" if inexact else ""), files=badfiles)
+    if inexact:
+        return dict(out, v="inconclusive", msg="prefix relation held on all cuts, but the full capture is not exported exactly (C01/C02 business): " + inexact, nontrivial=False)
     return dict(out, v="held")
